@@ -236,9 +236,15 @@ class Machine:
             a, b = self.pick(op[1]), self.pick(op[2])
             if a is None:
                 return
-            o = op[3] % 7
+            o = op[3] % 9
             try:
-                if o == 0:
+                if o == 7:
+                    # bare Quantity operators with plain numbers and the unary/modulo forms
+                    rs = [a * 2, 2 * a, a + 1, 1 + a, a - 1, 1 - a, abs(a), a / 2, a % b, a - b if a == b else a]
+                    r = rs[op[2] % len(rs)]
+                elif o == 8:
+                    r = (a + b) if a == b else (b - b)
+                elif o == 0:
                     r = (Scalar.CreateWithQuantity(a, 2.0) * Scalar.CreateWithQuantity(b, 3.0)).GetQuantity()
                 elif o == 1:
                     r = (Scalar.CreateWithQuantity(a, 2.0) / Scalar.CreateWithQuantity(b, 3.0)).GetQuantity()
